@@ -61,8 +61,17 @@ func C07_NewView() {
 
 	var vs []*symVote
 	var vbs []*protocol.ViewChangeMessageContentBuilder
+	prepares2 := env.Param("prepares2") // PREPARE senders in the proofs of the votes after the first proof-carrying one (-1: same)
+	first := true
 	for i := 0; i < votes; i++ {
-		v := newSymVote(wd.reg, "v", mask&(1<<uint(i)) != 0, prepares)
+		k := prepares
+		if mask&(1<<uint(i)) != 0 {
+			if !first && prepares2 >= 0 {
+				k = prepares2
+			}
+			first = false
+		}
+		v := newSymVote(wd.reg, "v", mask&(1<<uint(i)) != 0, k)
 		vs = append(vs, v)
 		vbs = append(vbs, v.b)
 	}
@@ -95,21 +104,21 @@ func C07_NewView() {
 	}
 	env.Reach("C07.accepted")
 	after := n.m.state.HeightView()
-	env.Assert("C07.nv.sig", nvSnd.valid)
+	env.Assert("C07.nv.sig", nvSnd.isValid())
 	env.Assert("C07.nv.leader", nvSnd.id == ref.leader(nvView))
 	env.Assert("C07.nv.instance", nvInstance == vInstance)
 	env.Assert("C07.nv.height", nvHeight == H)
 	env.Assert("C07.nv.view_adopted", env.And(after.View() == nvView, nvView >= V))
 	env.Assert("C07.nv.pp_fields", env.And(pp.view == nvView, pp.height == nvHeight))
 	env.Assert("C07.nv.pp_instance", pp.instance == vInstance)
-	env.Assert("C07.nv.pp_sig", env.And(ppSnd.valid, ppSnd.id == ref.leader(nvView)))
+	env.Assert("C07.nv.pp_sig", env.And(ppSnd.isValid(), ppSnd.id == ref.leader(nvView)))
 	env.Assert("C07.nv.has_block", blk != nil)
 
 	// votes: a set for (instance, height, view) from distinct committee members of quorum weight, each validly signed
 	good := make([]bool, votes)
 	ids := make([]byte, votes)
 	for i, v := range vs {
-		good[i] = env.And(v.instance == vInstance, env.And(v.height == H, env.And(v.view == nvView, env.And(v.snd.valid, ref.member(v.snd.id)))))
+		good[i] = env.And(v.instance == vInstance, env.And(v.height == H, env.And(v.view == nvView, env.And(v.snd.isValid(), ref.member(v.snd.id)))))
 		ids[i] = v.snd.id
 	}
 	env.Assert("C07.votes.quorum", ref.weight(ids, good) >= ref.q())
